@@ -19,7 +19,7 @@ Lemma add_accepted k a1 a2 a3 s s' r cbs cmds :
   (forall k' id, k' <> k \/ id <> next_corr s -> lookup id (getm k' s') = lookup id (getm k' s)).
 Proof. unfold do_add. destruct (driver_active s) eqn:Ea; cbn [negb]; [|intros H; inversion H].
   destruct (closed s) eqn:Ec; [intros H; inversion H|].
-  destruct (kind_eqb k KCtr && ((MAX_KEY <? a2) || (MAX_LABEL <? a3))); [intros H; inversion H|].
+  destruct (add_illegal k a1 a2 a3); [intros H; inversion H|].
   destruct (ring_full s); [intros H; inversion H|].
   intros H. inversion H; subst. clear H. repeat split; auto.
   - rewrite getm_setm_same. apply lookup_ins_same.
@@ -35,15 +35,32 @@ Lemma add_rejected k a1 a2 a3 s s' e cbs cmds :
   (s' = s \/ (ring_full s = true /\ e = IllegalState /\ s' = set_next_corr (next_corr s + 1) s)) /\ cbs = [] /\ cmds = [].
 Proof. unfold do_add. destruct (negb (driver_active s)); [intros H; inversion H; auto|].
   destruct (closed s); [intros H; inversion H; auto|].
-  destruct (kind_eqb k KCtr && ((MAX_KEY <? a2) || (MAX_LABEL <? a3))); [intros H; inversion H; auto|].
+  destruct (add_illegal k a1 a2 a3); [intros H; inversion H; auto|].
   destruct (ring_full s); intros H; inversion H; auto. Qed.
+
+(* why an add is refused: the driver is inactive, the client closed, the arguments illegal (a counter key / label over its
+   limit, a command that does not fit the 512-byte command buffer), or the ring refused the write *)
+Lemma add_refused_why k a1 a2 a3 s s' e cbs cmds :
+  do_add k a1 a2 a3 s = (s', (Err e, cbs, cmds)) ->
+  (e = DriverInactive /\ driver_active s = false) \/ (e = Closed /\ closed s = true) \/
+  (e = IllegalArg /\ add_illegal k a1 a2 a3 = true) \/ (e = IllegalState /\ ring_full s = true).
+Proof. unfold do_add. destruct (driver_active s) eqn:Ea; cbn [negb]; [|intros H; inversion H; auto].
+  destruct (closed s) eqn:Ec; [intros H; inversion H; auto|].
+  destruct (add_illegal k a1 a2 a3) eqn:Ei; [intros H; inversion H; auto|].
+  destruct (ring_full s) eqn:Er; intros H; inversion H; auto 6. Qed.
+
+(* an add with legal arguments on an open client with an active driver and room in the ring is accepted *)
+Lemma add_legal_accepted k a1 a2 a3 s :
+  driver_active s = true -> closed s = false -> add_illegal k a1 a2 a3 = false -> ring_full s = false ->
+  exists s', do_add k a1 a2 a3 s = (s', (Ok [next_corr s], [], [Cmd (add_cmd_type k a1) (client_id s) (next_corr s) (add_cmd_args k a1 a2 a3)])).
+Proof. intros Ha Hc Hi Hr. unfold do_add. rewrite Ha, Hc, Hi, Hr. cbn [negb]. eauto. Qed.
 
 Lemma add_result k a1 a2 a3 s :
   let r := fst (fst (snd (do_add k a1 a2 a3 s))) in
   r = Ok [next_corr s] \/ r = Err DriverInactive \/ r = Err Closed \/ r = Err IllegalArg \/ r = Err IllegalState.
 Proof. unfold do_add. destruct (negb (driver_active s)); cbn; auto.
   destruct (closed s); cbn; auto.
-  destruct (kind_eqb k KCtr && ((MAX_KEY <? a2) || (MAX_LABEL <? a3))); cbn; auto.
+  destruct (add_illegal k a1 a2 a3); cbn; auto.
   destruct (ring_full s); cbn; auto 6. Qed.
 
 Lemma fresh_id s k : inv s -> lookup (next_corr s) (getm k s) = None /\ client_id s <> next_corr s.
@@ -141,7 +158,8 @@ Proof. destruct o; cbn [step].
     + pose proof (on_event_ids e s) as H1. destruct (on_event e s) as [[s1 cbs1] hang1]. cbn [fst] in H1.
       destruct hang1; cbn; [intuition|].
       pose proof (heartbeat_check_ids c s1) as H. destruct (heartbeat_check c s1) as [[[s2 cbs2] hang2] r]. cbn [fst] in H.
-      destruct hang2; cbn; intuition congruence. Qed.
+      destruct hang2; cbn; intuition congruence.
+  - unfold do_close_handle, one_or_none. destruct k; try (cbn; tauto); destruct (user_obj _ r s); cbn; tauto. Qed.
 
 (* strictly increasing, starting at n or above *)
 Fixpoint increasing_from (n : Z) (l : list Z) : Prop :=
@@ -502,7 +520,9 @@ Proof. intros I Hne Hnc. destruct o; cbn [step].
   - cbn [fst]. split; auto. left. apply keeps_same_maps. intros kk; destruct kk; reflexivity.
   - cbn [fst]. split; auto. left. apply keeps_same_maps. intros kk; destruct kk; reflexivity.
   - cbn [fst]. split; auto. left. apply keeps_same_maps. intros kk; destruct kk; reflexivity.
-  - destruct (do_work_stable c b s I Hnc) as [A B]. split; auto. Qed.
+  - destruct (do_work_stable c b s I Hnc) as [A B]. split; auto.
+  - unfold do_close_handle. destruct k0; try (split; [left; apply keeps_refl|auto]); destruct (user_obj _ r0 s); cbn [fst];
+      try (split; [left; apply keeps_refl|auto]); (split; [left; apply keeps_same_maps; intros kk; destruct kk; reflexivity|auto]). Qed.
 
 Lemma keeps_held k r h s s' : keeps k r s s' -> held k r h s -> held k r h s'.
 Proof. intros K (o & Ho & Hu & Hh). destruct (K o Ho Hu) as (o' & Ho' & S). exists o'. unfold obj_same in S. intuition congruence. Qed.
@@ -695,6 +715,7 @@ Proof. destruct o; cbn [step].
     + pose proof (on_event_cs e s) as H1. destruct (on_event e s) as [[s1 cbs1] hang1]. cbn in H1. destruct hang1; cbn [fst snd filter]; auto.
       pose proof (heartbeat_check_scalars_cs c s1) as H. destruct (heartbeat_check c s1) as [[[s2 cbs2] hang2] r].
       destruct hang2; cbn [fst snd filter] in *; split; auto; congruence.
+  - unfold do_close_handle. destruct k; cbn; auto; destruct (user_obj _ r s); cbn; auto.
 Qed.
 
 (* only SetRingFull changes the ring flag *)
@@ -713,7 +734,8 @@ Proof. destruct o; cbn [step]; try reflexivity.
   - unfold do_work. destruct b; auto.
     + cbn. pose proof (heartbeat_check_scalars_rf c s) as H. destruct (heartbeat_check c s) as [[[s2 cbs2] hang2] r]. destruct hang2; exact H.
     + pose proof (on_event_rf e s) as H1. destruct (on_event e s) as [[s1 cbs1] hang1]. cbn in H1. destruct hang1; [exact H1|].
-      pose proof (heartbeat_check_scalars_rf c s1) as H. destruct (heartbeat_check c s1) as [[[s2 cbs2] hang2] r]. cbn in *. destruct hang2; cbn; congruence. Qed.
+      pose proof (heartbeat_check_scalars_rf c s1) as H. destruct (heartbeat_check c s1) as [[[s2 cbs2] hang2] r]. cbn in *. destruct hang2; cbn; congruence.
+  - unfold do_close_handle. destruct k; cbn; auto; destruct (user_obj _ r s); cbn; auto. Qed.
 
 (* how many ClientClose commands a history writes: one, by its first close, unless the ring refuses it then *)
 Fixpoint close_writes (sent full : bool) (ops : list op) : nat :=
@@ -841,7 +863,8 @@ Proof. destruct o; cbn [step].
   - unfold do_work. destruct b; try exact I.
     + cbn. pose proof (heartbeat_check_no_hang c s) as H. destruct (heartbeat_check c s) as [[[s2 cbs2] hang2] r]. cbn in H. subst. exact I.
     + pose proof (on_event_no_hang e s) as H1. destruct (on_event e s) as [[s1 cbs1] hang1]. cbn in H1. subst.
-      pose proof (heartbeat_check_no_hang c s1) as H. destruct (heartbeat_check c s1) as [[[s2 cbs2] hang2] r]. cbn in H. subst. exact I. Qed.
+      pose proof (heartbeat_check_no_hang c s1) as H. destruct (heartbeat_check c s1) as [[[s2 cbs2] hang2] r]. cbn in H. subst. exact I.
+  - unfold do_close_handle. repeat dmatch; exact I. Qed.
 
 Lemma run_total c ops : forall s, Forall (fun x : out => fine (fst (fst x))) (snd (run c s ops)).
 Proof. induction ops as [|o ops IH]; intros s; cbn; [constructor|].
